@@ -400,6 +400,10 @@ class IncrementalExecutor(Executor[DeliveryGroupMap]):
         delivery_group_map: DeliveryGroupMap,
     ) -> None:
         """Create execution groups for the new deferred grouped field sets."""
+        if self.collected_errors.has_nulled_position(path):
+            # A field that is settled in the background after a sibling has
+            # nulled this position must not start work that is never delivered.
+            return
         append_task = self.tasks.append
         parent_defer_usages = self.defer_usage_set
         enable_early_execution = self.enable_early_execution
@@ -620,6 +624,13 @@ class IncrementalExecutor(Executor[DeliveryGroupMap]):
             item_type,
             is_async,
         )
+
+        if self.collected_errors.has_nulled_position(path):
+            # A field that is settled in the background after a sibling has
+            # nulled this position must not leave behind a stream that is never
+            # delivered, but the already started iterator must still be closed.
+            self.settle_abort_result(queue.abort())
+            return True
 
         item_stream = ItemStream(path, stream_usage.label, queue, index)
 
